@@ -89,6 +89,17 @@ def generate(rng, tier):
             k = rng.randrange(6, len(g))
             g[k] ^= 1 << rng.randrange(8)
             out.append((f"load2 {kind} {hx(g)}", True))
+    # tiny checksummed files (header only, or a header and a few bytes): a loader that looks at the size before the
+    # checksum must still report the corruption
+    for n in range(10, 19):
+        tf = bytearray(b"skyb\x02\x01\x00\x00\x00\x00") + rand_bytes(rng, n - 10)
+        tf[6:10] = ap_crc32(tf).to_bytes(4, "little")
+        for kind in "tlyr":
+            out.append((f"load2 {kind} {hx(tf)}", True))
+            for k in ([6, 9] + ([n - 1] if n > 10 else [])):
+                g = bytearray(tf)
+                g[k] ^= 1 << rng.randrange(8)
+                out.append((f"load2 {kind} {hx(g)}", True))
     # files beyond 64 KiB and 128 KiB: every chunk after the first must be hashed as it is (bytes 6..9 of the file only
     # are the checksum field), whatever the width of the counters involved
     for n in ([65545, 65546, 65600, 70000, 131100] if thorough else [65546, 70000, 131100]):
